@@ -18,12 +18,12 @@ COMPONENTS = {"real": ["workflows.* engine (wait_for_event, waiter reducer arms,
               "stub": ["llama_index_instrumentation"], "sim": ["loop, clock, responder"]}
 ASSUMPTIONS = ["a retry of a step that failed after its wait completed may complete the same wait again (documented: 'allow retries to grab the waiter events')",
                "timeouts within 1e-9 of the deadline are ties and exempt"]
-EXPECTED_PROBES = ["wait-completed", "wait-timeout", "duplicate-response", "resumed-with-pending-waiter", "two-matching-before-replay"]
+EXPECTED_PROBES = ["double-resume", "wait-completed", "wait-timeout", "duplicate-response", "resumed-with-pending-waiter", "two-matching-before-replay"]
 LEVEL_TEXT = ("Seeded exploration of response timings around waiter registration, replay and resume; every value returned by "
               "wait_for_event and every TimeoutError is attributed to one wait (step, input uid, waiter id) and counted.")
 LEVEL_NOTE = "Trusted: simulator loop, body logging around wait_for_event."
 
-CFG = {"driver": "finish", "p_wait": 70, "p_retry": 15, "p_fail": 10, "p_wait_self": 15, "p_resp_step": 15,
+CFG = {"p_double_resume": 30, "driver": "finish", "p_wait": 70, "p_retry": 15, "p_fail": 10, "p_wait_self": 15, "p_resp_step": 15,
        "n_work": (1, 3), "n_types": (1, 3), "fan_max": 2, "wait_timeouts": [None, "default", 3, 6]}
 
 
@@ -48,13 +48,16 @@ def _roots(recs):
         elif kind == "tick" and f["tick"] == "step_result":
             unacked.discard((f["step"], f["uid"] if not isinstance(f["uid"], list) else tuple(f["uid"])))
         if kind == "snapshot":
+            src, dst = ("run2", "run3") if f.get("second") else ("run1", "run2")
             for (run, st, wid), w in list(live.items()):
-                if run == "run1":
+                if run == src:
                     # an invocation of the waiting step that was in progress at the snapshot is re-queued by from_serialized
                     # ... and a re-queue caused by an earlier hit survives in the serialized queue / in_progress
+                    # (second snapshot, taken before the resumed loop processed anything: the waiter is carried over as it was
+                    # deserialized, still not rehydrated, together with whatever the first resume had already queued for it)
                     pre = (["inprogress"] if (st, w["orig"]) in unacked else []) + ["carried"] * min(1, len(w["hits"]))
-                    live[("run2", st, wid)] = {"type": w["type"], "req": dict(w["req"]), "hits": pre, "deser": True, "orig": w["orig"],
-                                               "rehydrated": False}
+                    live[(dst, st, wid)] = {"type": w["type"], "req": dict(w["req"]), "hits": pre, "deser": True, "orig": w["orig"],
+                                            "rehydrated": False}
         elif kind == "tick":
             run = f["run"]
             if f["tick"] == "step_result":
@@ -79,6 +82,7 @@ def _roots(recs):
                         continue
                     if w["deser"] and not w["rehydrated"] and f.get("target") == st and f["uid"] == w["orig"]:
                         w["hits"].append("rehydrate")
+                        w["saw_rehydrate"] = True
                         if len(w["hits"]) >= 2:
                             roots[(st, wid)] = "rehydration-race"
                         continue
@@ -92,6 +96,14 @@ def _roots(recs):
                             else:
                                 roots.setdefault((st, wid), "requeued-by-second-event")
                         w["hits"].append("event")
+                        if w["deser"] and not w["rehydrated"]:
+                            w["hit_unrehydrated"] = True
+    # a deserialized waiter with requirements for which the resumed run never even queued the rehydration re-run is not the recorded
+    # race (there the re-run is queued and merely loses against an event): its requirements are gone for good
+    for (run, st, wid), w in live.items():
+        if w["deser"] and w.get("hit_unrehydrated") and not w.get("saw_rehydrate") and not w["rehydrated"] and w["req"] and \
+                roots.get((st, wid)) == "rehydration-race":
+            roots[(st, wid)] = "never-rehydrated"
     return roots
 
 
